@@ -21,14 +21,14 @@ SPEC = {
     "floors": {"TestStartup/mode_long": 0.15, "TestStartup/cut_short_ammo": 0.02, "TestStartup/cut_short_creation_failed": 0.03,
                "TestStartup/composite_startup": 0.3, "TestStartup/all_tokens_started": 0.3,
                "TestStartup/per_instance_profile_shorter_than_startup": 0.019,
-               "TestStartup/provider_run_returned_early_ammo_left": 0.1,
+               "TestStartup/provider_run_returned_early_ammo_left": 0.077,
                "TestStartup/provider_run_returned_before_last_startup_token": 0.03,
                # classes added after seeded defect C12/m7 (shared RPS profile of unknown length taken for a finished one)
                "TestStartup/shared_rps_unknown_length": 0.09, "TestStartup/shared_rps_unknown_length/long": 0.06,
                "TestStartup/shared_rps_unknown_length_startup_spread_in_time": 0.045,
                "TestStartup/shared_rps_unknown_length_all_spread_tokens_must_start": 0.02,
                "TestStartup/shared_rps_unlimited_alone": 0.01, "TestStartup/shared_rps_composite_unlimited_tail": 0.04,
-               "TestStartup/shared_rps_composite_unlimited_head_const_tail": 0.02},
+               "TestStartup/shared_rps_composite_unlimited_head_const_tail": 0.015},
     "manifest": {
         "technique": "property-based testing (rapid generators, batch-parallel) of the real engine; validity predicates over measured instants",
         "text": ("Startup profiles are generated, the engine is run with recording doubles, and measured instants are compared: the k-th gun "
